@@ -162,8 +162,8 @@ func VerifC05SeqArrow() {
 	rep := verifChoice(3)
 	s, d := verifSeqValue(rep, 3, true)
 	ctx := context.Background()
-	fn := NewFunction(parser.Scanner{}, IdentPattern("x"), verifUFBody{})
-	e := NewSeqArrowExpr(false)(parser.Scanner{}, s, fn)
+	fn := NewFunction(*parser.NewScanner(""), IdentPattern("x"), verifUFBody{})
+	e := NewSeqArrowExpr(false)(*parser.NewScanner(""), s, fn)
 	hasHole := false
 	for _, p := range d {
 		if !p.ok {
@@ -247,7 +247,7 @@ func VerifC05Offset() {
 	n := verifNondetIntIn(-3, 3)
 	if verifChoice(2) == 0 {
 		verifCover("integer")
-		e := NewOffsetExpr(parser.Scanner{}, NewNumber(float64(n)), s)
+		e := NewOffsetExpr(*parser.NewScanner(""), NewNumber(float64(n)), s)
 		res, err := e.Eval(ctx, EmptyScope)
 		verifAssert("offset-no-error", err == nil)
 		if err != nil {
@@ -262,7 +262,7 @@ func VerifC05Offset() {
 		verifAssert("offset-count", res.(Set).Count() == verifDenCount(want))
 	} else {
 		verifCover("fractional")
-		e := NewOffsetExpr(parser.Scanner{}, NewNumber(float64(verifChoice(4))-1.5), s)
+		e := NewOffsetExpr(*parser.NewScanner(""), NewNumber(float64(verifChoice(4))-1.5), s)
 		_, err := e.Eval(ctx, EmptyScope)
 		verifAssert("fractional-offset-is-error", err != nil)
 	}
